@@ -126,6 +126,9 @@ fn run_once(root: &Path, files: &[(String, String)], mode: &str) -> Result<(usiz
                 files_out.insert(n, strip_ts(&t));
             }
         }
+        // the dependency visualisation (`--visualize-deps`) walks the type graph on its own
+        files_out.insert("dependency-graph.txt".into(), analyzer.visualize_dependencies(&commands));
+        files_out.insert("dependency-graph.dot".into(), analyzer.generate_dot_graph(&commands));
     }
     Ok((commands.len(), files_out))
 }
@@ -353,6 +356,34 @@ pub fn run(out: &mut Out, tier: &str, rng: &mut Rng) {
                 }
             }
             t.push_str(&it);
+        }
+        if names.len() >= 2 || (names.len() == 1 && rng.chance(1, 2)) {
+            // a further struct whose fields mention the defined names in every container position, cycles included
+            let pickn = |rng: &mut Rng| names[rng.below(names.len())].clone();
+            let mut fields = String::new();
+            for q in 0..2 + rng.below(4) {
+                let a = pickn(rng);
+                let b = pickn(rng);
+                let t = match rng.below(10) {
+                    0 => format!("Result<{}, {}>", a, b),
+                    1 => format!("HashMap<{}, {}>", a, b),
+                    2 => format!("Vec<{}>", a),
+                    3 => format!("Option<Box<{}>>", a),
+                    4 => format!("({}, {})", a, b),
+                    5 => format!("BTreeMap<String, Vec<Link{}>>", i),          // self reference
+                    6 => format!("Option<Result<Vec<{}>, {}>>", a, b),
+                    7 => format!("({},)", a),
+                    8 => format!("HashSet<{}>", a),
+                    _ => a,
+                };
+                fields.push_str(&format!("    pub f{}: {},\n", q, t));
+            }
+            t.push_str(&format!("#[derive(Serialize, Deserialize)]\npub struct Link{} {{\n{}}}\n", i, fields));
+            // close a cycle of length two through the first defined struct when it is one of ours
+            t.push_str(&format!("#[derive(Serialize, Deserialize)]\npub struct Back{} {{ pub up: Vec<Link{}>, pub peer: Option<Box<Back{}>> }}\n", i, i, i));
+            t.push_str(&format!("#[derive(Serialize, Deserialize)]\npub struct Fwd{} {{ pub down: Vec<Back{}>, pub err: Result<Link{}, Back{}> }}\n", i, i, i, i));
+            names.push(format!("Link{}", i));
+            names.push(format!("Fwd{}", i));
         }
         if !names.is_empty() {
             let params: Vec<String> = names.iter().enumerate().map(|(q, n)| format!("p{}: {}", q, if q % 3 == 2 { format!("Vec<Option<{}>>", n) } else { n.clone() })).collect();
